@@ -5,6 +5,8 @@ comments and alternative order is preserved (it matters for nothing here but kee
 
 from __future__ import annotations
 
+import os
+import re
 from pathlib import Path
 
 from .core import AnalysisError
@@ -13,7 +15,7 @@ GRAMMAR_REL = "src/gotranx/ode.lark"
 
 
 class GrammarModel:
-    def __init__(self, repo: Path, overlay: dict | None = None):
+    def __init__(self, repo: Path, overlay: dict | None = None, normalise_renames: bool = True):
         try:
             from lark.load_grammar import load_grammar
             from lark.lexer import Token
@@ -28,6 +30,34 @@ class GrammarModel:
                 raise AnalysisError(f"{GRAMMAR_REL} not found")
             src = p.read_text()
         self.text = src
+        self.renamed: dict[str, str] = {}
+        self._load(src, p, load_grammar)
+        if normalise_renames and not os.environ.get("VERIF_NO_ALPHA"):
+            # grammar rules that were only renamed (same right-hand side, a name the vetted grammar never used, no trace of
+            # the old name) are read under the name the rules know - sa/alpha.py, anchors.json `grammar`
+            from . import alpha
+
+            vetted = alpha.table().get("grammar", {})
+            for _round in range(3):
+                missing = [n for n in vetted if n not in self.rules]
+                fresh = [n for n in self.rules if n not in vetted]
+                mapping = {}
+                for m in missing:
+                    cands = [f for f in fresh if self.rules[f]["shape"] == vetted[m] and f not in mapping]
+                    if len(cands) == 1 and not re.search(rf"(?<![\w\"]){re.escape(m)}(?![\w\"])", src):
+                        mapping[cands[0]] = m
+                if not mapping:
+                    break
+                parts = re.split(r'("(?:[^"\\]|\\.)*"|/(?:[^/\\\n]|\\.)+/)', src)
+                for i in range(0, len(parts), 2):
+                    for new_, old_ in mapping.items():
+                        parts[i] = re.sub(rf"(?<!\w){re.escape(new_)}(?!\w)", old_, parts[i])
+                src = "".join(parts)
+                self.renamed.update(mapping)
+                self.text = src
+                self._load(src, p, load_grammar)
+
+    def _load(self, src, p, load_grammar):
         try:
             g, _ = load_grammar(src, str(p), ["lark"], False)
         except Exception as e:
